@@ -430,6 +430,24 @@ func (H) Execute(x *common.Exec, s any) {
 		all = append(all, ls...)
 	}
 	x.NonTrivial = len(all) >= 2
+	for _, l := range all {
+		if !l.ok {
+			x.Fault("load-rejected")
+		}
+		if l.spec.NilCfg {
+			x.Fault("nil-configuration")
+		}
+	}
+	if len(sc.Tasks) > 1 {
+		x.Fault("concurrent-loaders")
+	}
+	for _, a := range all {
+		for _, b := range all {
+			if a.task != b.task && a.inv < b.ret && b.inv < a.ret {
+				x.Fault("overlapping-loads")
+			}
+		}
+	}
 	// (1) per load: validity / handler silence on rejection / sequential unchanged-ness.
 	for _, l := range all {
 		x.Oblige(2)
